@@ -610,6 +610,10 @@ static void verif_print_ref (sexp ctx, sexp v) {
   if (hi < 0) fprintf(verif_trace, " x"); else fprintf(verif_trace, " %d:%lu", hi, off);
 }
 
+/* C16: with CHIBI_VERIF_DUMP_KINDS=1 every port / fileno of a dump is followed by a line
+   "K off P openp no_closep streamfd" / "K off N openp no_closep fd count" (what the finalisers read and write) */
+static int verif_dump_kinds = -1;
+
 /* H3 dump: every chunk of every heap ("phase" = pre | marked | weak | post) */
 static void verif_dump (sexp ctx, const char *phase) {
   sexp_heap h; sexp p, end, t; sexp_free_list q, r; int hi = 0; sexp_sint_t i, n, wn;
@@ -649,6 +653,13 @@ static void verif_dump (sexp ctx, const char *phase) {
           if (saves->var) verif_print_ref(ctx, *(saves->var));
       }
       fprintf(verif_trace, "\n");
+      if (verif_dump_kinds < 0) { char *ks = getenv("CHIBI_VERIF_DUMP_KINDS"); verif_dump_kinds = ks ? atoi(ks) : 0; }
+      if (verif_dump_kinds && sexp_portp(p))
+        fprintf(verif_trace, "K %lu P %d %d %d\n", off, (int)sexp_port_openp(p), (int)sexp_port_no_closep(p),
+                (sexp_port_openp(p) && sexp_port_stream(p)) ? fileno(sexp_port_stream(p)) : (sexp_port_stream(p) ? -2 : -1));
+      else if (verif_dump_kinds && sexp_filenop(p))
+        fprintf(verif_trace, "K %lu N %d %d %ld %ld\n", off, (int)sexp_fileno_openp(p), (int)sexp_fileno_no_closep(p),
+                (long)sexp_fileno_fd(p), (long)sexp_fileno_count(p));
       if (size == 0) { fprintf(verif_trace, "E zero-size object\n"); break; }
       p = (sexp) (((char*)p) + size);
     }
